@@ -21,8 +21,8 @@ Definition dPD : dec lppd_period :=
   r <- dZ ;; s <- dZ ;; e <- dZ ;; md <- dZ ;; dRet (mkPD r s e md).
 
 Definition dCP : dec clp_params :=
-  pm <- dZ ;; fd <- dZ ;; ft <- dList (dPair dZ dZ) ;; lk <- dZ ;; cn <- dZ ;; reg <- dList (dPair dZ dZ) ;; wl <- dList dZ ;; rl <- dZ ;; rw <- dBool ;;
-  dRet (mkCP pm fd ft lk cn reg wl rl rw).
+  pm <- dZ ;; fd <- dZ ;; ft <- dList (dPair dZ dZ) ;; lk <- dZ ;; cn <- dZ ;; reg <- dList (dPair dZ dZ) ;; wl <- dList dZ ;; rl <- dZ ;; rw <- dBool ;; mg <- dList dZ ;; th <- dZ ;;
+  dRet (mkCP pm fd ft lk cn reg wl rl rw mg th).
 
 Definition dClp : dec clp_state :=
   bal <- dStore (dStore dZ) ;; sup <- dStore dZ ;; pools <- dStore dPool ;; lps <- dStore (dStore dLp) ;;
